@@ -927,7 +927,7 @@ def detect_mode(impl_w):
 
 def check(run):
     quick = run.tier == "quick"
-    n_cases = 600 if quick else 3000
+    n_cases = 450 if quick else 3000
     max_adds = 10 if quick else 40
     run.coverage["rule"] = (
         "histories of 1..%d add/load calls (objects, dictionaries, lists, nested lists, Bundle objects, dictionary "
